@@ -524,6 +524,9 @@ class Interp:
                 return r
         if name in TRANSPARENT_METHODS:
             v = self.ev(n["recv"])
+            if name == "real" and hasattr(v, "atoms") and v.atoms(sp.core.function.AppliedUndef):
+                # symbols are real, but the value of a user function over a generic ComplexField may be complex: real() of it loses a part
+                return sp.re(v)
             if isinstance(v, Variant) and v.name in ("Ok", "Some") and len(v.args) == 1 and name in ("unwrap", "expect", "ok_or", "ok_or_else", "map_err"):
                 return v.args[0] if name in ("unwrap", "expect") else v
             return v
